@@ -184,6 +184,11 @@ def render_case(n, case):
         L += helpers
         L += inv_lines
         base = "icontract.DBC" if j == 0 else "L%d" % (j - 1)
+        if j == 1 and case.get("diamond"):
+            # the contracts of L0 reach L1 along two paths (the same checker object through two bases)
+            L.append("%sclass M1(L0): pass" % ind1)
+            L.append("%sclass M2(L0): pass" % ind1)
+            base = "M1, M2"
         L.append("%sclass L%d(%s):" % (ind1, j, base))
         L.append("%s_icv_tag = 900" % ind2)
         if kind == "method":
